@@ -1,6 +1,9 @@
 import PqlModel.Props.C03
+import PqlModel.Props.C02Split
 #print axioms Pql.C03.C03_bare_key_rewrite
 #print axioms Pql.C03.C03_quoted_key_not_rewritten
 #print axioms Pql.C03.C03_two_conditions_anded
 #print axioms Pql.C03.C03_aliases
 #print axioms Pql.C03.C03_kinds
+#print axioms Pql.C05.C05_block_structure
+#print axioms Pql.C02.C02_limit_never_crosses_nested
